@@ -185,7 +185,10 @@ func header(from string) textproto.Header {
 
 // deliver runs one message through the pipeline and returns the first error.
 func deliver(p *msgpipeline.MsgPipeline, ctx context.Context, id string, hdr textproto.Header) error {
-	meta := &module.MsgMetadata{ID: id, DontTraceSender: true, OriginalFrom: "bounce@example.org"}
+	return deliverMeta(p, ctx, &module.MsgMetadata{ID: id, DontTraceSender: true, OriginalFrom: "bounce@example.org"}, hdr)
+}
+
+func deliverMeta(p *msgpipeline.MsgPipeline, ctx context.Context, meta *module.MsgMetadata, hdr textproto.Header) error {
 	d, err := p.Start(ctx, meta, meta.OriginalFrom)
 	if err != nil {
 		return err
@@ -362,6 +365,8 @@ func TestComp(t *testing.T) {
 			outs, err = compFailAction(c)
 		case "milter-replycode":
 			outs, err = compMilter(c)
+		case "milter-wire":
+			outs, err = compMilterWire(c)
 		case "smtpconn-reply":
 			outs, err = compSMTPConn(c)
 		default:
